@@ -23,6 +23,7 @@ import (
 // The pool shared by the parent and its child processes (C08, C09).
 
 type encSpec struct {
+	Bad  bool  `json:"bad"` // a string that is not valid UTF-8: this Encode fails
 	Seed int64 `json:"seed"`
 	FT   int   `json:"ft"`
 	K    int   `json:"k"`
@@ -44,7 +45,11 @@ func (ap *apiPool) input(i int) []byte {
 
 func (ap *apiPool) file(p *Profile, e encSpec) *fit.File {
 	g := &fileGen{rng: newRng(e.Seed), p: p, density: 0.5, maxList: 3, long: e.Odd}
-	return g.File(e.FT, e.K%2 == 0, -1, -1)
+	f := g.File(e.FT, e.K%2 == 0, -1, -1)
+	if e.Bad {
+		f.FileId.ProductName = "ab\xff\xfe"
+	}
+	return f
 }
 
 func buildAPIPool(c *Ctx, p *Profile, sch *Schema, dir string) *apiPool {
@@ -89,6 +94,14 @@ func buildAPIPool(c *Ctx, p *Profile, sch *Schema, dir string) *apiPool {
 		s.Data(2, wire(u32le(0x3A000000), arch))
 		add(s.Bytes(), "compressed timestamps and a local time before any reference")
 	}
+	// local times whose zone offsets differ by seconds (a skewed device clock)
+	for _, off := range []uint32{3600, 3620, 3659} {
+		s := newStream(12, false)
+		s.FileId(0, 0, 4)
+		s.Def(1, 0, 34, []FieldDef{{253, 4, 0x86}, {5, 4, 0x86}}, nil)
+		s.Data(1, append(u32le(0x39000000), u32le(0x39000000+off)...))
+		add(s.Bytes(), fmt.Sprintf("activity with local time %d s ahead of UTC", off))
+	}
 	add(c12Stream(rng, 0).Bytes(), "timestamp stream (activity)")
 	add(c12Stream(rng, 1).Bytes(), "timestamp stream (schedules, local times with varying offsets)")
 	g := &generator{rng: rng, p: p, sch: sch, k: defaultKnobs()}
@@ -98,11 +111,14 @@ func buildAPIPool(c *Ctx, p *Profile, sch *Schema, dir string) *apiPool {
 	ap.ChainN = ap.NDec
 	add(append(ap.input(1), ap.input(3)...), "chain: Activity + Settings")
 	add(append(append(ap.input(0), ap.input(6)...), ap.input(0)...), "chain: A + compressed-first + A")
+	_ = fmt.Sprint
 	// Files for Encode: pairs on the same file type with long and short strings
 	for ft, k := 0, 0; k < c.pick(8, 24); k++ {
 		ft = sch.Types[k%len(sch.Types)].T
 		ap.Enc = append(ap.Enc, encSpec{Seed: c.Seed*1000 + int64(k), FT: ft, K: k, Odd: k%2 == 0, Arch: k % 2})
 	}
+	// an Encode that fails part-way: later calls must not see anything of it
+	ap.Enc = append(ap.Enc, encSpec{Seed: c.Seed*1000 + 777, FT: 4, K: 1, Bad: true})
 	return ap
 }
 
